@@ -9,6 +9,8 @@ case = {"clock": "int"|"float"|"dur"|"durmin", "strategy": "log"|"warn"|"pause",
         "models": [model, ...],
         "cmds": [cmd, ...],            # ["init", start, warm, end, model_index] | ["start"] | ["step"] | ...
         "stop_at": [i, ...]            # optional: the handler of the i-th executed event of a replication calls stop()
+        "initial": [[action, ...], ...],  # optional: initial methods registered with simulator.add_initial_method from
+                                       # outside the model before the first initialize
         "twin_from": j,                # optional: also run cmds[j:] (cmds[j] an init) on a brand-new simulator and model
         "slow": {"stop": 0.3}}         # optional: slow subscribers to simulator notifications (seconds); an init command with a
                                        # 6th element "asap" is issued as soon as is_starting_or_running() turns False
@@ -72,7 +74,8 @@ def run_both(case, name):
         mi = c[4] if len(c) > 4 else 0
         twin = {"clock": case["clock"], "strategy": case["strategy"], "models": [case["models"][mi]],
                 "cmds": [[c[0], c[1], c[2], c[3], 0]] + [list(x) for x in case["cmds"][j + 1:]],
-                "stop_at": case.get("stop_at_twin", case.get("stop_at")), "slow": case.get("slow")}
+                "stop_at": case.get("stop_at_twin", case.get("stop_at")), "slow": case.get("slow"),
+                "initial": case.get("initial")}
         if any(x[0] == "init" and (x[4] if len(x) > 4 else 0) != mi for x in case["cmds"][j + 1:]):
             twin["models"] = case["models"]
             twin["cmds"][0][4] = mi
@@ -565,6 +568,17 @@ def run_case(case, name, early=None):
 
     models = [ProgModel(sim, spec, mi) for mi, spec in enumerate(case["models"])]
     subscribe()
+
+    class External:
+        """something outside the model that registered initial methods with the simulator before the first
+        initialize: they are performed at the end of every initialize, for whichever model is initialised"""
+        def run_initial(self, idx):
+            rec["log"].append(["initial", idx, to_q(sim.simulator_time)])
+            sim.model.interp(case["initial"][idx])
+
+    ext = External()
+    for idx in range(len(case.get("initial") or [])):
+        sim.add_initial_method(ext, "run_initial", idx=idx)
 
     def wait_quiet():
         t0 = time.time()
